@@ -1301,3 +1301,57 @@ def textpair(repo, templates, facts=None):
                 res.add(f"{hg.rel}|{f.qualname}|reader|{k}|missing", f"`{tb[k]}` does not exist in the runtime", hg.rel, line, f.qualname)
     res.analysed = [TEMPLATES, hg.rel]
     return res
+
+
+def switchfit(repo):
+    """R-SWITCHFIT (C07/C01): the optimized Ok() emits `switch (<discriminant>)` with `case <constant>:` labels.  The
+    operand has the C++ type chosen from the discriminant's range; a label must be representable in it (a converted
+    constant expression: a constant outside is a hard narrowing error, g++ and clang++, every standard).  So every path
+    of _get_switch_candidate that hands out a (discriminant, case) pair passes a test that rejects the pair when the
+    constant is outside the discriminant's [minimum_value, maximum_value]."""
+    res = RuleResult("R-SWITCHFIT")
+    hg = repo.mod("compiler/back_end/cpp/header_generator.py")
+    fs = [f for f in hg.top_funcs() if f.name == "_get_switch_candidate"]
+    if not fs:
+        raise AnalysisError("header_generator._get_switch_candidate not found")
+    f = fs[0]
+    parents = {}
+    for n in ast.walk(f.node):
+        for c in ast.iter_child_nodes(n):
+            parents[id(c)] = n
+
+    def is_none_pair(r):
+        return isinstance(r.value, ast.Tuple) and all(isinstance(e, ast.Constant) and e.value is None for e in r.value.elts)
+
+    def range_reject(st):
+        if not isinstance(st, ast.If):
+            return False
+        ordered = [c for c in ast.walk(st.test) if isinstance(c, ast.Compare)
+                   and any(isinstance(o, (ast.Lt, ast.LtE, ast.Gt, ast.GtE)) for o in c.ops)]
+        t = " ".join(ast.unparse(c) for c in ordered)
+        direct = "minimum_value" in t and "maximum_value" in t and any(isinstance(x, ast.Return) and is_none_pair(x) for x in st.body)
+        nested = any(range_reject(x) for x in st.body)
+        return direct or nested
+
+    for r in walk_no_nested_funcs(f.node):
+        if not (isinstance(r, ast.Return) and isinstance(r.value, ast.Tuple) and len(r.value.elts) == 2) or is_none_pair(r):
+            continue
+        res.instances += 1
+        ok = False
+        node = r
+        while id(node) in parents and not ok:
+            par = parents[id(node)]
+            for fld in ("body", "orelse"):
+                blk = getattr(par, fld, None)
+                if isinstance(blk, list) and node in blk:
+                    ok = ok or any(range_reject(st) for st in blk[:blk.index(node)])
+            node = par
+        if not ok:
+            res.add(f"{hg.rel}|_get_switch_candidate|range", f"_get_switch_candidate returns `{ast.unparse(r.value)}` (line {r.lineno}) without "
+                    "having compared the constant with the discriminant's minimum_value/maximum_value: `if int32_field == "
+                    "0xFFFF_FFFF` yields `case 4294967295:` on an int32_t operand -- the header does not compile once Ok() is used",
+                    hg.rel, r.lineno, f.name)
+    if res.instances < 1 and not res.findings:
+        raise AnalysisError("_get_switch_candidate: no return of a (discriminant, case) pair found")
+    res.analysed = [hg.rel]
+    return res
